@@ -13,23 +13,41 @@ THOROUGH = [((1, 2, 4), 1.0), ((2, 2, 4), 1.0), ((3, 2, 4), 1.0), ((4, 2, 4), 1.
             ((2, 2, 16), 1.0), ((3, 2, 8), 1.0), ((2, 3, 12), 0.5), ((5, 2, 4), 0.25)]
 
 
+_BUF = {}
+SCALES = (1.0, 2.0 ** -46, 2.0 ** 20)          # the unit the affinity is expressed in: MMD scales with sqrt(s), W1 with s
+
+
 def check_case(rep, case):
     n, k, q = case["n"], case["k"], case["q"]
     P = np.array(case["a"], dtype=float) / q
     x = case["x"]
     key = (n, k, q, case["a"], x)
     for res in case["base"]:
-        expected = gem.bag_eval(res["v"])
-        A = gem.affinity(res["name"], res["aff"], x)
+        expected0 = gem.bag_eval(res["v"])
+        A0 = gem.affinity(res["name"], res["aff"], x)
         tol = gem.tol_value(res)
+        scales = SCALES if A0 is not None else (1.0,)
         for label, g in gem.code_instances(res["name"]):
             for how in ("call", "evaluate"):
+                sc = scales[(sum(map(sum, case["a"])) + case["a"][0][0] * 7 + case["a"][-1][0] * 3 + len(label) + len(res["aff"]) + sum(x)) % len(scales)] if how == "evaluate" else 1.0
+                factor = 1.0 if A0 is None else (np.sqrt(sc) if res["name"].startswith("mmd") else sc)
+                expected = expected0 * factor
+                A = None if A0 is None else A0 * sc
                 try:
-                    got = g(P.copy(), None if A is None else A.copy()) if how == "call" else \
-                        g.evaluate(P.copy(), None if A is None else A.copy())
+                    if how == "call":
+                        # the same GEMINI object and the same affinity BUFFER are reused across cases (contents overwritten in
+                        # place): a result must depend on the values passed, not on the identity of the objects
+                        if A is not None:
+                            buf = _BUF.setdefault((res["name"][:3], n), np.zeros((n, n)))
+                            g(P.copy(), buf)                 # same object, previous contents
+                            np.copyto(buf, A)
+                            A = buf
+                        got = g(P.copy(), A)
+                    else:
+                        got = g.evaluate(P.copy(), None if A is None else A.copy())
                     got = float(got)
-                    bad = not (abs(got - expected) <= tol * max(1.0, abs(expected)))
-                    msg = f"{res['name']}[{res['aff']}] via {label}.{how}: code={got!r} spec={expected!r}"
+                    bad = not (abs(got - expected) <= tol * max(factor, abs(expected)))
+                    msg = f"{res['name']}[{res['aff']} x{sc:g}] via {label}.{how}: code={got!r} spec={expected!r}"
                 except Exception as e:  # raising on a valid input is a disagreement with the definition too
                     bad, msg = True, f"{res['name']}[{res['aff']}] via {label}.{how}: raised {type(e).__name__}: {e}"
                 rep.case((key, res["name"], res["aff"]))
